@@ -46,6 +46,8 @@ def san_sets():
 def authn_rows(quick):
     rows = []
     for (fam, role, san, rh, rn) in itertools.product(('v4', 'v6'), I.ROLES, san_sets(), (False, True), (False, True)):
+        if quick and fam == 'v6' and san is not None and len(san) > 2:
+            continue  # v6 rows map to the same model inputs as the v4 rows; the quick tier keeps the small certificates
         rows.append(dict(kind='authn', role=role, fam=fam, san=san, require_host=rh, require_node=rn))
     # the peer announces the other node ID / the endpoint connected to the other name
     extra = []
@@ -56,6 +58,18 @@ def authn_rows(quick):
         if role == 'active-name':
             extra.append(dict(kind='authn', role=role, fam='v4', san=san, require_host=rh, require_node=rn,
                               peer_name=I.DNS_OTHER))
+    # EMPTY identifiers (falsy references): the peer announces an empty node ID (SESS_INIT nodeid_length = 0);
+    # the active endpoint has an empty connect name; certificates carrying empty SAN values.  Full SAN table each.
+    for (role, san, rh, rn) in itertools.product(I.ROLES, san_sets(), (False, True), (False, True)):
+        extra.append(dict(kind='authn', role=role, fam='v4', san=san, require_host=rh, require_node=rn, nodeid=''))
+        if role == 'active-name':
+            extra.append(dict(kind='authn', role=role, fam='v4', san=san, require_host=rh, require_node=rn, peer_name=''))
+    empties = [['uri_empty'], ['uri_empty', 'uri_ok'], ['uri_empty', 'uri_other'], ['dns_empty'], ['dns_empty', 'dns_ok'],
+               ['dns_empty', 'dns_other'], ['ip_ok', 'dns_empty', 'uri_empty'], ['dns_empty', 'uri_empty']]
+    for (role, san, rh, rn, nodeid) in itertools.product(I.ROLES, empties, (False, True), (False, True), ('', I.NODE_OK)):
+        extra.append(dict(kind='authn', role=role, fam='v4', san=san, require_host=rh, require_node=rn, nodeid=nodeid))
+        if role == 'active-name':
+            extra.append(dict(kind='authn', role=role, fam='v4', san=san, require_host=rh, require_node=rn, nodeid=nodeid, peer_name=''))
     # no TLS in use: nothing is authenticated, nothing is refused
     for (role, rh, rn) in itertools.product(I.ROLES, (False, True), (False, True)):
         extra.append(dict(kind='authn', role=role, fam='v4', san=None, require_host=rh, require_node=rn, tls=False))
@@ -70,14 +84,14 @@ MATCH_IDS = {'a.example': 1, 'b.example': 2, 'c.example': 3}
 # ============================================================ abstraction to the model's inputs
 def abstract_authn(row):
     ''' The row in the vocabulary of Gen/TlsPolicy.v (abstract identifiers). '''
-    node = I.ID_NODE if row.get('nodeid', I.NODE_OK) == I.NODE_OK else I.ID_NODE_OTHER
+    node = {I.NODE_OK: I.ID_NODE, I.NODE_OTHER: I.ID_NODE_OTHER, '': I.ID_EMPTY}[row.get('nodeid', I.NODE_OK)]
     if row['role'] == 'active-name':
-        peer_name = I.ID_DNS if row.get('peer_name', I.DNS_OK) == I.DNS_OK else I.ID_DNS_OTHER
+        peer_name = {I.DNS_OK: I.ID_DNS, I.DNS_OTHER: I.ID_DNS_OTHER, '': I.ID_EMPTY}[row.get('peer_name', I.DNS_OK)]
     else:
         peer_name = I.ID_ADDR  # fromaddr[0] / the address literal connected to
     san = row['san'] or []
     table = dict(ip_ok=I.ID_ADDR, ip_other=I.ID_ADDR_OTHER, dns_ok=I.ID_DNS, dns_other=I.ID_DNS_OTHER,
-                 uri_ok=I.ID_NODE, uri_other=I.ID_NODE_OTHER)
+                 uri_ok=I.ID_NODE, uri_other=I.ID_NODE_OTHER, dns_empty=I.ID_EMPTY, uri_empty=I.ID_EMPTY)
     return dict(
         passive=(row['role'] == 'passive'), peer_name=peer_name, peer_addr=I.ID_ADDR, node=node,
         ips=[table[t] for t in san if t.startswith('ip_')],
@@ -122,12 +136,13 @@ def concrete_refs(row):
     (addr, addr_other) = I.ADDRS[fam]
     san = row['san'] or []
     table = dict(ip_ok=addr, ip_other=addr_other, dns_ok=I.DNS_OK, dns_other=I.DNS_OTHER,
-                 uri_ok=I.NODE_OK, uri_other=I.NODE_OTHER)
+                 uri_ok=I.NODE_OK, uri_other=I.NODE_OTHER, dns_empty='', uri_empty='')
     ips = [table[t] for t in san if t.startswith('ip_')]
     dnss = [table[t] for t in san if t.startswith('dns_')]
     uris = [table[t] for t in san if t.startswith('uri_')]
     # the DNS name this endpoint knows for its peer: only an active endpoint that connected by name
-    dns = row.get('peer_name', I.DNS_OK) if row['role'] == 'active-name' else None
+    # (an empty name is no name)
+    dns = (row.get('peer_name', I.DNS_OK) or None) if row['role'] == 'active-name' else None
     node = row.get('nodeid', I.NODE_OK)
     return dict(addr=addr, dns=dns, node=node, ips=ips, dnss=dnss, uris=uris)
 
@@ -184,6 +199,10 @@ def oracle_authn(row, obs):
             sig = '%s/require_node/%s' % (role_class(row), 'uri-absent' if not ref['uris'] else 'uri-mismatch')
         else:
             sig = '%s/%s' % (role_class(row), first)
+        if ref['node'] == '':
+            sig += '/empty-node-id'
+        if row['role'] == 'active-name' and ref['dns'] is None:
+            sig += '/empty-connect-name'
         out.append((sig, 'session established under TLS although the certificate fails the policy clause(s) %s; '
                          'references %s; authn fields %s' % (failed, json.dumps(ref, sort_keys=True), json.dumps(obs['params'], sort_keys=True))))
     if failed and not obs['established']:
@@ -198,7 +217,8 @@ def oracle_authn(row, obs):
         for (key, refval, ids) in (('authn_ipaddrid', ref['addr'], ref['ips']), ('authn_dnsid', ref['dns'], ref['dnss']),
                                    ('authn_nodeid', ref['node'], ref['uris'])):
             val = obs['params'].get(key)
-            if isinstance(val, list):
+            # an empty string in the field is falsy for every consumer: it does not report a match
+            if isinstance(val, list) and val[1] != '':
                 if val[1] != refval or refval not in ids:
                     out.append(('params/%s-false-match' % key, '%s reported matched %r; reference %r, certificate %r' % (key, val, refval, ids)))
     if obs['sessinit_clear'] or obs['clear_after_tls']:
@@ -517,9 +537,10 @@ def main():
     chk.coverage['translator'] = dict(ok=tr_ok, error=tr_err)
     chk.finish(
         rule=('exhaustive enumeration, no sampling: contact table = role{passive,active} x tls_enable x peer CAN_TLS x require_tls{None,True,False} '
-              'x handshake{ok,fail}; authentication table = address family{v4,v6} x role{passive, active by address, active by name} x every subset of '
+              'x handshake{ok,fail}; authentication table = address family{v4; v6 (quick tier: v6 only for certificates with at most 2 SANs)} x role{passive, active by address, active by name} x every subset of '
               '{matching IP, other IP, matching DNS, other DNS, matching URI, other URI} SANs + SAN extension without any of these + no SAN extension '
-              'x require_host x require_node, plus rows with the other announced node ID / other connect name / no TLS; match_id() table = 3 references x 6 '
+              'x require_host x require_node, plus the full SAN table again with an EMPTY announced node ID and with an EMPTY connect name, certificates with empty '
+              'URI/DNS SAN values, rows with the other announced node ID / other connect name / no TLS; match_id() table = 3 references x 6 '
               'certificates.  Each row runs the real ContactHandler (message-driven, and merge_session_params() called directly), the generated Coq definitions '
               '(vm_compute) and the oracle.  distinct = distinct input of the model (authentication rows that differ only in the address family or in '
               'which concrete name plays which role map to the same abstract identifiers and count once); non-trivial = contact row that closes or '
@@ -529,7 +550,7 @@ def main():
             'Connection.secure() is replaced: on success the connection reports is_secure() and uses a fake TLS socket whose getpeercert(True) returns the '
             'real DER certificate; on failure ssl.SSLError.  Real TLS handshakes and certificate-chain validation are outside the model',
             'translator translate/targets/tlspolicy.py is trusted; bounded by the exhaustive differential evaluation of every translated definition',
-            'identifiers are abstract (equality only); DNS names and node IDs are non-empty strings; a peer that presents no certificate at all '
+            'identifiers are abstract (equality only; the empty string is identifier 0 and is falsy); a peer that presents no certificate at all '
             '(getpeercert() None) is outside the quantifier of the property',
         ])
 
